@@ -111,6 +111,14 @@ func (u *c14up) ExchangeContext(ctx context.Context, m []byte) (*[]byte, error) 
 	}
 	switch inv.Outcome {
 	case ocError:
+		// plain failures and timeout-class ones (a transport's own dial or
+		// handshake timeout wraps the same sentinel errors a context produces)
+		switch simrt.Choose(4) {
+		case 0:
+			return nil, fmt.Errorf("failed to dial: %w", context.DeadlineExceeded)
+		case 1:
+			return nil, fmt.Errorf("upstream gave up: %w", context.Canceled)
+		}
 		return nil, errors.New("scripted upstream error")
 	case ocGarbage:
 		b := []byte{1, 2, 3, 4, 5, 6, 7, 8, 9, 10, 11, 12, 0xc0, 0xff, 0xc0}
@@ -185,6 +193,7 @@ func c14Setup(rc *RunCtx) simrt.Config {
 
 func c14Main(rc *RunCtx) {
 	c := rc.priv.(*c14cfg)
+	rc.StrictBufs = true // a reply buffer released twice would be handed to two later replies at once
 	var ups []upstream.Upstream
 	for i := 0; i < c.nUp; i++ {
 		ups = append(ups, &c14up{idx: i, rc: rc, c: c})
